@@ -8,6 +8,7 @@ def parseInner (s : String) : Option (List Inner) :=
     match w.toList with
     | 't' :: r => (String.ofList r).toNat?.map Inner.thenI
     | 'd' :: r => (String.ofList r).toNat?.map Inner.destroyCtx
+    | ['x'] => some Inner.dropAll
     | _ => none
 
 def showDelivered : Delivered → String
@@ -16,7 +17,7 @@ def showDelivered : Delivered → String
 
 def showEv : Ev → String
   | .ran k c v => s!"ran {k} {c} {showDelivered v}"
-  | .released r c => s!"released {if r then 1 else 0} {if c then 1 else 0}"
+  | .released => "released"
 
 def obs (s : St) (evs : List Ev) : String :=
   let e := if evs.isEmpty then "-" else ";".intercalate (evs.map showEv)
